@@ -8,7 +8,7 @@
 (* modes with / without Force, createBlock, close.                         *)
 (* One action per public call; outcome class in `last.res`.                *)
 (***************************************************************************)
-EXTENDS NixVersionOrder
+EXTENDS NixCommon, NixVersionOrder
 
 CONSTANTS Lib,          \* <<x, y, z>> format version of the library
           Versions,     \* set of triples a file may carry
